@@ -965,10 +965,12 @@ impl Session {
             return Ok(());
         }
 
-        // Increment packet counter
+        // Increment packet counter. Packet 0 is the authentication preamble (its padding
+        // comes from line 0 of the scheme), so the first session write is packet 1.
         let pkt = self
             .pkt_counter
-            .fetch_add(1, std::sync::atomic::Ordering::SeqCst);
+            .fetch_add(1, std::sync::atomic::Ordering::SeqCst)
+            .wrapping_add(1);
         #[cfg(feature = "verif-hooks")]
         crate::verif::sched_point("write_with_padding:after_pkt").await;
         let padding_factory = {
